@@ -132,7 +132,13 @@ def collect_functions(repo):
     return out, tsprops
 
 
+# closures that are DEFINED at registration time but RUN while serving (filter handlers of the router)
+REQUEST_TIME_CLOSURES = {('ombott/router/filter_factory.py', '_rex.f_in'), ('ombott/router/filter_factory.py', 'FilterFactory.make_filter.handler')}
+
+
 def on_request_path(f):
+    if (f.rel, f.qual) in REQUEST_TIME_CLOSURES:
+        return True
     ex = NOT_REQUEST_PATH.get(f.rel)
     if ex == '*':
         return False
@@ -194,7 +200,7 @@ class Analysis:
                 elif isinstance(n, ast.withitem) and n.optional_vars is not None:
                     self._bind(n.optional_vars, n.context_expr)
                 elif isinstance(n, ast.ExceptHandler) and n.name:
-                    self.assigns.setdefault(n.name, []).append('FRESH')
+                    self.assigns.setdefault(n.name, []).append('CAUGHT')   # may be a long-lived object (config.errors_map)
                 elif isinstance(n, ast.NamedExpr):
                     self._bind(n.target, n.value)
 
@@ -250,6 +256,8 @@ class Analysis:
                     return 'ARG'
                 return 'SHARED' if 'SHARED' in rs or 'APP' in rs else 'UNKNOWN'
             if self.parent is not None and (n in self.parent.assigns or n in self.parent.params):
+                if not on_request_path(self.parent.f):
+                    return 'SHARED'     # bound once at registration time: lives as long as the route / filter does
                 return self.parent.region(e, depth + 1)     # a free variable bound in the enclosing function of this call
             return 'SHARED'     # a module global / builtin / class attribute: long-lived
         if isinstance(e, ast.Attribute):
@@ -375,7 +383,7 @@ def run(repo, prop, tier):
     cache = {}
 
     def analysis(f):
-        key = (f.rel, f.qual)
+        key = (f.rel, f.qual, f.node.lineno)      # a property getter and its setter share a qualified name
         if key not in cache:
             pq = f.qual.rsplit('.', 1)[0] if '.' in f.qual else None
             pf = by_qual.get((f.rel, pq)) if pq else None
